@@ -40,6 +40,8 @@ def tri_name(v):
 class GateTypeVal(Host):
     """Value of a `GateType(name, operator, symmetric)` registration."""
 
+    _repo_class_name = 'GateType'
+
     def __init__(self, name, operator, is_symmetric, node=None, var=None):
         self.var = var or name
         self._name = name
